@@ -644,7 +644,7 @@ theorem addSimplicesFrom_inv {s : HG} (h : SCInv s) (fmt : Fmt) (items : List Ed
   simp only []
   split
   · split
-    · exact h
+    · exact key
     · split
       · exact h
       · exact key
@@ -820,11 +820,65 @@ theorem addSimplicesFrom_bnd {s : HG} (h : SCInv s) (fmt : Fmt) (items : List Ed
   simp only []
   split
   · split
-    · exact bnd_refl s k
+    · exact key
     · split
       · exact bnd_refl s k
       · exact key
   · exact key
+
+/-! ### an added simplex is present afterwards -/
+
+theorem foldl_faces_has (hh : Hints) (L : List (List PyId)) {s : HG} (h : Mid s L) {u : List PyId} (hu : Has s u) :
+    Has (L.foldl (addFaceIfMissing hh) s) u := by
+  induction L generalizing s with
+  | nil => exact hu
+  | cons t L ih =>
+    simp only [List.foldl_cons]
+    refine ih (mid_face hh h) ?_
+    unfold addFaceIfMissing
+    split
+    · exact hu
+    · exact (addFace_ext h.fresh t hh).has_mono hu
+
+theorem addFaces_has {s : HG} {Q : List (List PyId)} (hh : Hints) (h : Mid s Q) {u : List PyId} (hu : Has s u) :
+    Has (addFaces s Q hh) u :=
+  foldl_faces_has hh _ (mid_faceOrder hh h) hu
+
+/-- a call of `add_simplex` that returns without warning on a non-empty member list leaves that simplex present -/
+theorem addSimplex_has {s : HG} (h : SCInv s) (ms : List PyId) (idx : Option PyId) (a : Attrs) (hh : Hints)
+    (hne : ms ≠ []) (hok : (addSimplex s ms idx a hh).2 = .ok) : Has (addSimplex s ms idx a hh).1 ms := by
+  revert hok
+  unfold addSimplex
+  split
+  · rename_i he; exact absurd (by simpa using he) hne
+  · split
+    · intro hx; cases hx
+    · rename_i hnone
+      split
+      · rename_i hhas; intro _; exact (hasSimplex_iff s ms).1 hhas
+      · rename_i hhas
+        have hhas' : ¬ Has s ms := fun hx => hhas ((hasSimplex_iff s ms).2 hx)
+        have hnd : PyId.none ∉ dedup ms := fun hx => hnone (mem_dedup.1 hx)
+        have auto : Has (addFaces (addTop { s with uid := s.uid + 1 } (PyId.int s.uid) ms a hh)
+            (subfacesRaw (dedup ms)) hh) ms := by
+          have hm := mid_addTop (mid_uid_succ (mid_of_scinv h)) (PyId.int s.uid) ms a hh (uid_not_mem h.fresh)
+            (by intro hx; cases hx) hnone hne hhas' (faceClosed_subfacesRaw (dedup ms)) (cover_dedup ms)
+            (none_subfacesRaw hnd)
+          rw [List.nil_append] at hm
+          exact addFaces_has hh hm (addTop_ext { s with uid := s.uid + 1 } (PyId.int s.uid) ms a hh
+            (show PyId.int (s.uid : Int) ∉ s.edges from uid_not_mem h.fresh)).has_new
+        split
+        · intro _; exact auto
+        · intro _; exact auto
+        · rename_i i hin
+          split
+          · intro hx; cases hx
+          · rename_i hi
+            intro _
+            have hm := mid_addTop (mid_of_scinv h) i ms a hh hi hin hnone hne hhas'
+              (faceClosed_subfacesRaw (dedup ms)) (cover_dedup ms) (none_subfacesRaw hnd)
+            rw [List.nil_append] at hm
+            exact addFaces_has hh hm (addTop_ext s i ms a hh hi).has_new
 
 /-! ### removals: sub-complexes whose removed part is closed upwards -/
 
